@@ -190,3 +190,53 @@ Fixpoint sp_run (bkt : str) (s : sstate) (items : list gitem) : list sres :=
   end.
 
 Definition sp_init (objs : gstore) : sstate := mkSS objs [].
+
+(* ------------------------------------------------------------------ the property's class, one handle *)
+(* Relative to the flat-array state (content, position): which calls the property quantifies over.
+   dirty = a positional read/write happened and Seek has not re-established the position yet. *)
+Definition bs1 (data : bytes) (pos : nat) (ro : bool) : bstate := mkBS data [mkBH pos false ro].
+
+Definition dirty_after (dirty : bool) (o : op) : bool :=
+  match o with
+  | HReadAt _ _ _ | HWriteAt _ _ _ => true
+  | HSeek _ _ _ => false
+  | _ => dirty
+  end.
+
+Definition op_ok (ro : bool) (data : bytes) (pos : nat) (dirty : bool) (o : op) : bool :=
+  let size := zlen data in
+  let p := Z.of_nat pos in
+  match o with
+  | HRead i n => Nat.eqb i 0 && (0 <=? n) && negb dirty && (p <=? size)
+  | HReadAt i n off => Nat.eqb i 0 && (0 <=? n) && (0 <=? off) && (off <=? size)
+  | HWrite i _ | HWriteString i _ => Nat.eqb i 0 && negb ro && negb dirty && (p <=? size)
+  | HWriteAt i _ off => Nat.eqb i 0 && negb ro && (0 <=? off) && (off <=? size)   (* inside the object *)
+  | HSeek i off wh =>
+      Nat.eqb i 0 && ((wh =? 0) || (wh =? 2) || ((wh =? 1) && negb dirty)) &&
+      (let t := if wh =? 0 then off else if wh =? 1 then p + off else size + off in (0 <=? t) && (t <=? size))
+  | HTruncate i n => Nat.eqb i 0 && negb ro && (0 <=? n) && (n <=? size)           (* shrinking *)
+  | HStat i | HSync i => Nat.eqb i 0
+  | _ => false
+  end.
+
+Fixpoint in_class (ro : bool) (data : bytes) (pos : nat) (dirty : bool) (ops : list op) : bool :=
+  match ops with
+  | [] => true
+  | o :: rest =>
+    op_ok ro data pos dirty o &&
+    match bf_step (bs1 data pos ro) o with
+    | (mkBS data' (h :: _), _) => in_class ro data' (bpos h) (dirty_after dirty o) rest
+    | _ => false
+    end
+  end.
+
+(* a result of the Go-level model agrees with the flat-array result *)
+Definition res_agrees (r : gres) (p : pres) : Prop :=
+  match r, p with
+  | GData b e, PBytes b' _ => b = b' /\ (e = None \/ e = Some GEOF)
+  | GCount n None, PCount k => n = Z.of_nat k
+  | GPos n None, PPos k => n = Z.of_nat k
+  | GOk, POk => True
+  | GInfo i, PSize k => gi_dir i = false /\ gi_size i = Z.of_nat k
+  | _, _ => False
+  end.
